@@ -172,7 +172,7 @@ Lemma evaluate_message_independent cl allowed base m :
   /\ o_qrs (evaluate_message cl allowed base m)
     = fst (get_text cl allowed base (m_qrs m) (tr_qrs m)).
 Proof.
-  unfold evaluate_message.
+  unfold evaluate_message, evaluate_message_gen.
   destruct (get_text cl allowed base [m_text m] (tr_text m)) as [a la].
   destruct (get_text cl allowed base (m_atts m) (tr_atts m)) as [b lb].
   destruct (get_text cl allowed base (m_qrs m) (tr_qrs m)) as [c lc].
@@ -189,7 +189,7 @@ Lemma evaluate_message_locale cl allowed base m :
       o_lang o = snd (get_text cl allowed base (m_qrs m) (tr_qrs m)))
   /\ (o_text o = [] -> o_atts o = [] -> o_qrs o = [] -> o_lang o = nil_lang).
 Proof.
-  unfold evaluate_message.
+  unfold evaluate_message, evaluate_message_gen, pick_lang.
   destruct (get_text cl allowed base [m_text m] (tr_text m)) as [a la].
   destruct (get_text cl allowed base (m_atts m) (tr_atts m)) as [b lb].
   destruct (get_text cl allowed base (m_qrs m) (tr_qrs m)) as [c lc].
@@ -299,7 +299,7 @@ Lemma evaluate_message_in_independent langs base m :
   /\ o_atts (evaluate_message_in langs base m) = fst (get_text_in langs base (m_atts m) (tr_atts m))
   /\ o_qrs (evaluate_message_in langs base m) = fst (get_text_in langs base (m_qrs m) (tr_qrs m)).
 Proof.
-  unfold evaluate_message_in.
+  unfold evaluate_message_in, evaluate_message_in_gen.
   destruct (get_text_in langs base [m_text m] (tr_text m)) as [a la].
   destruct (get_text_in langs base (m_atts m) (tr_atts m)) as [b lb].
   destruct (get_text_in langs base (m_qrs m) (tr_qrs m)) as [c lc].
@@ -334,7 +334,7 @@ Lemma broadcast_translations_spec base loc_langs m l o :
   /\ o_atts o = fst (get_text_in [l; base] base (m_atts m) (tr_atts m))
   /\ o_qrs o = fst (get_text_in [l; base] base (m_qrs m) (tr_qrs m)).
 Proof.
-  unfold broadcast_translations. intros H. apply in_map_iff in H.
+  unfold broadcast_translations, broadcast_translations_gen. intros H. apply in_map_iff in H.
   destruct H as (l' & He & Hin). inversion He; subst.
   split; [exact Hin|]. apply evaluate_message_in_independent.
 Qed.
@@ -462,3 +462,147 @@ Example say_msg_example :
   /\ play_audio_out 3 [3; 2] 1 [112] [(3, [[113]])] = Some {| i_text := []; i_audio := [113]; i_lang := 3 |}
   /\ play_audio_out 3 [3; 2] 1 [112] [(3, [[]; [113]])] = None.
 Proof. repeat split. Qed.
+
+
+(* ---- evaluated messages: the reported language is decided on the EVALUATED parts ---------------------------- *)
+
+(* for any evaluation of the localized values: each part is the evaluation of its own chain choice *)
+Lemma evaluate_message_gen_independent ev_text ev_atts ev_qrs cl allowed base m :
+  let o := evaluate_message_gen ev_text ev_atts ev_qrs cl allowed base m in
+  o_text o = ev_text (hd [] (fst (get_text cl allowed base [m_text m] (tr_text m))))
+  /\ o_atts o = ev_atts (fst (get_text cl allowed base (m_atts m) (tr_atts m)))
+  /\ o_qrs o = ev_qrs (fst (get_text cl allowed base (m_qrs m) (tr_qrs m))).
+Proof.
+  unfold evaluate_message_gen.
+  destruct (get_text cl allowed base [m_text m] (tr_text m)) as [a la].
+  destruct (get_text cl allowed base (m_atts m) (tr_atts m)) as [b lb].
+  destruct (get_text cl allowed base (m_qrs m) (tr_qrs m)) as [c lc].
+  cbn. auto.
+Qed.
+
+(* ... and the language reported names the language used for the text of the message as created; for a message
+   created without text, its attachments' language, then its quick replies' *)
+Lemma evaluate_message_gen_locale ev_text ev_atts ev_qrs cl allowed base m :
+  let o := evaluate_message_gen ev_text ev_atts ev_qrs cl allowed base m in
+  (o_text o <> [] -> o_lang o = snd (get_text cl allowed base [m_text m] (tr_text m)))
+  /\ (o_text o = [] -> o_atts o <> [] ->
+      o_lang o = snd (get_text cl allowed base (m_atts m) (tr_atts m)))
+  /\ (o_text o = [] -> o_atts o = [] -> o_qrs o <> [] ->
+      o_lang o = snd (get_text cl allowed base (m_qrs m) (tr_qrs m)))
+  /\ (o_text o = [] -> o_atts o = [] -> o_qrs o = [] -> o_lang o = nil_lang).
+Proof.
+  unfold evaluate_message_gen, pick_lang.
+  destruct (get_text cl allowed base [m_text m] (tr_text m)) as [a la].
+  destruct (get_text cl allowed base (m_atts m) (tr_atts m)) as [b lb].
+  destruct (get_text cl allowed base (m_qrs m) (tr_qrs m)) as [c lc].
+  cbn.
+  destruct (ev_text (hd [] a)) as [|x xs]; cbn.
+  - split; [congruence|].
+    destruct (ev_atts b) as [|b0 b']; destruct (ev_qrs c) as [|c0 c']; repeat split; intros; congruence.
+  - repeat split; intros; congruence.
+Qed.
+
+(* a text that evaluates to "" next to translated attachments: the message is text-less and reports the
+   attachments' language (before the repair of base.go the language of the unevaluated text was reported) *)
+Example evaluated_empty_text_reports_attachment_language :
+  let m := {| m_text := [64; 120]; m_atts := [[97]]; m_qrs := [];
+              tr_text := []; tr_atts := [(2, [[98]])]; tr_qrs := [] |} in
+  let o := evaluate_message_gen (fun _ => []) (fun l => l) (fun l => l) 2 [2] 1 m in
+  o_text o = [] /\ o_atts o = [[98]] /\ o_lang o = 2.
+Proof. cbn. repeat split. Qed.
+
+(* ---- template variables ---------------------------------------------------------------------------------- *)
+
+Lemma pad_to_length n l : length (pad_to n l) = n.
+Proof. revert l; induction n as [|n IH]; intros l; cbn; [reflexivity|]. destruct l; cbn; rewrite IH; reflexivity. Qed.
+
+Lemma pad_to_nth n l i : (i < n)%nat -> nth i (pad_to n l) [] = nth i l [].
+Proof.
+  revert l i; induction n as [|n IH]; intros l i Hi; [inversion Hi|].
+  destruct l as [|x l]; destruct i as [|i]; cbn; try reflexivity.
+  - rewrite IH by lia. destruct i; reflexivity.
+  - apply IH. lia.
+Qed.
+
+(* the variables a templated message is built with are the chain's choice for the action's template variables
+   (padded/cut to the number of variables the template translation has) *)
+Lemma template_variables_spec cl allowed base n vars tr :
+  exists out used,
+    spec_pick cl allowed base vars tr out used
+    /\ length (template_variables cl allowed base n vars tr) = n
+    /\ forall i, (i < n)%nat -> nth i (template_variables cl allowed base n vars tr) [] = nth i out [].
+Proof.
+  unfold template_variables.
+  pose proof (get_text_spec cl allowed base vars tr) as H.
+  destruct (get_text cl allowed base vars tr) as [out used]. cbn [fst].
+  exists out, used. split; [exact H|]. split; [apply pad_to_length|]. intros i Hi. apply pad_to_nth; exact Hi.
+Qed.
+
+Example template_variables_example :
+  template_variables 3 [3] 1 2 [[118; 49]; [118; 50]] [(3, [[110]; [111]])] = [[110]; [111]]
+  /\ template_variables 2 [2] 1 2 [[118; 49]; [118; 50]] [(3, [[110]; [111]])] = [[118; 49]; [118; 50]]
+  /\ template_variables 3 [3] 1 2 [[118; 49]; [118; 50]] [(3, [[110]])] = [[110]; []].
+Proof. repeat split. Qed.
+
+(* ---- BroadcastTranslations.ForContact ------------------------------------------------------------------- *)
+
+(* without any localization a recipient gets the base content *)
+Lemma for_contact_no_localization rl allowed base m :
+  let o := for_contact rl allowed base (broadcast_translations base [] m) in
+  o_text o = m_text m /\ o_atts o = m_atts m /\ o_qrs o = m_qrs m.
+Proof.
+  unfold broadcast_translations, broadcast_translations_gen, for_contact, for_contact_langs.
+  cbn [map]. unfold evaluate_message_in_gen. cbn [get_text_in]. rewrite N.eqb_refl. cbn [hd].
+  set (e := {| o_text := m_text m; o_atts := m_atts m; o_qrs := m_qrs m;
+               o_lang := pick_lang (m_text m) (m_atts m) (m_qrs m) base base base |}).
+  assert (Hl : forall l, lookup_bc [(base, e)] l = if N.eqb l base then Some e else None)
+    by (intros l; cbn; reflexivity).
+  assert (Hm : forall acc, o_text acc = [] \/ o_text acc = m_text m ->
+                           o_atts acc = [] \/ o_atts acc = m_atts m ->
+                           o_qrs acc = [] \/ o_qrs acc = m_qrs m ->
+                           let r := fc_merge acc base e in
+                           o_text r = m_text m /\ o_atts r = m_atts m /\ o_qrs r = m_qrs m).
+  { intros acc [Ht|Ht] [Ha|Ha] [Hq|Hq]; unfold fc_merge; cbn; rewrite Ht, Ha, Hq; subst e; cbn;
+      repeat split; try reflexivity;
+      try (destruct (m_text m); reflexivity); try (destruct (m_atts m); reflexivity);
+      try (destruct (m_qrs m); reflexivity). }
+  (* every chain ends in the base language, whose entry supplies whatever is still missing; an entry looked up
+     for any other language does not exist *)
+  assert (Hstep : forall acc l,
+            (o_text acc = [] \/ o_text acc = m_text m) -> (o_atts acc = [] \/ o_atts acc = m_atts m) ->
+            (o_qrs acc = [] \/ o_qrs acc = m_qrs m) ->
+            let r := match lookup_bc [(base, e)] l with None => acc | Some t => fc_merge acc l t end in
+            (o_text r = [] \/ o_text r = m_text m) /\ (o_atts r = [] \/ o_atts r = m_atts m)
+            /\ (o_qrs r = [] \/ o_qrs r = m_qrs m)).
+  { intros acc l Ht Ha Hq. rewrite Hl. destruct (N.eqb_spec l base) as [->|_]; [|auto].
+    destruct (Hm acc Ht Ha Hq) as (A & B & C). cbn in A, B, C. cbn. rewrite A, B, C. auto. }
+  set (z := {| o_text := []; o_atts := []; o_qrs := []; o_lang := nil_lang |}).
+  assert (Hz : (o_text z = [] \/ o_text z = m_text m) /\ (o_atts z = [] \/ o_atts z = m_atts m)
+               /\ (o_qrs z = [] \/ o_qrs z = m_qrs m)) by (cbn; auto).
+  destruct (negb (N.eqb rl nil_lang) && lang_in rl allowed); cbn [app fold_left].
+  - destruct Hz as (A & B & C). destruct (Hstep z rl A B C) as (A1 & B1 & C1).
+    set (a1 := match lookup_bc [(base, e)] rl with None => z | Some t => fc_merge z rl t end) in *.
+    destruct (Hstep a1 (env_default allowed) A1 B1 C1) as (A2 & B2 & C2).
+    set (a2 := match lookup_bc [(base, e)] (env_default allowed) with None => a1 | Some t => fc_merge a1 (env_default allowed) t end) in *.
+    rewrite Hl, N.eqb_refl. apply Hm; assumption.
+  - destruct Hz as (A & B & C).
+    destruct (Hstep z (env_default allowed) A B C) as (A2 & B2 & C2).
+    set (a2 := match lookup_bc [(base, e)] (env_default allowed) with None => z | Some t => fc_merge z (env_default allowed) t end) in *.
+    rewrite Hl, N.eqb_refl. apply Hm; assumption.
+Qed.
+
+(* ... but with a partially translated language the recipient's content is NOT what the fallback chain prescribes:
+   environment [spa; kin; eng], base eng, kin has only its quick replies translated, spa has the text.  The event's
+   entry for kin is filled with the BASE text, which ForContact then takes for a kin recipient ("Hello", reported
+   as kin), while the chain (and a send_msg to the same contact) gives the spa text. *)
+Lemma for_contact_refuted :
+  exists rl allowed base loc_langs m,
+    let o := for_contact rl allowed base (broadcast_translations base loc_langs m) in
+    let w := evaluate_message rl allowed base m in
+    o_text o <> o_text w /\ o_lang o <> o_lang w /\ o_qrs o = o_qrs w.
+Proof.
+  exists 4, [3; 4; 1], 1, [3; 4],
+    {| m_text := [72]; m_atts := []; m_qrs := [[121]];
+       tr_text := [(3, [[104]])]; tr_atts := []; tr_qrs := [(3, [[115]]); (4, [[107]])] |}.
+  vm_compute. repeat split; discriminate.
+Qed.
